@@ -16,16 +16,19 @@ def decode_state_set(name):
     return set(body.split(',')) if body else set()
 
 
-def check(acc, spec, scheme='s', eps='', enc='sparse', morph=False):
+def check(acc, spec, scheme='s', eps='', enc='sparse', morph=False, letters='ab'):
     from gambatools.nfa_algorithms import nfa_to_dfa
-    params = {'spec': spec, 'scheme': scheme, 'eps': eps, 'enc': enc}
+    params = {'spec': spec, 'scheme': scheme, 'eps': eps, 'enc': enc, 'letters': letters}
     rp = {'fn': 'mc.props.c03:one', 'mode': 'plain', 'params': params}
-    inst = {'nfa': spec, 'scheme': scheme, 'eps': eps, 'enc': enc}
+    inst = {'nfa': spec, 'scheme': scheme, 'eps': eps, 'enc': enc, 'letters': letters}
     if morph:
         rp = {'fn': 'mc.props.c03:t_space', 'mode': 'plain', 'params': dict(acc.data.get('ctx', {}), upto=spec)}
         inst['presented_as'] = 'one live object rewritten in place after earlier conversions'
-    Q, Sg, T, q0, F = spaces.nfa_parts(spec, scheme, eps)
-    ok, N = core.lib_call(acc, 'NFA()', inst, spaces.morph_nfa if morph else spaces.build_nfa, spec, scheme, eps, enc, repro=rp)
+    Q, Sg, T, q0, F = spaces.nfa_parts(spec, scheme, eps, letters)
+    if morph:
+        ok, N = core.lib_call(acc, 'NFA()', inst, spaces.morph_nfa, spec, scheme, eps, enc, repro=rp)
+    else:
+        ok, N = core.lib_call(acc, 'NFA()', inst, spaces.build_nfa, spec, scheme, eps, enc, letters, repro=rp)
     if not ok:
         return
     A = fa.from_parts(Q, Sg, T, q0, F, eps)
@@ -61,8 +64,8 @@ def check(acc, spec, scheme='s', eps='', enc='sparse', morph=False):
     acc.mx('max_dfa_states', len(D.Q))
 
 
-def one(acc, spec, scheme='s', eps='', enc='sparse'):
-    check(acc, spec, scheme, eps, enc)
+def one(acc, spec, scheme='s', eps='', enc='sparse', letters='ab'):
+    check(acc, spec, scheme, eps, enc, letters=letters)
 
 
 def t_space(acc, space, shard, nshard, variants, morph=False, upto=None):
@@ -74,8 +77,9 @@ def t_space(acc, space, shard, nshard, variants, morph=False, upto=None):
         spaces._LIVE.clear()
         acc.data['ctx'] = {'space': space, 'shard': shard, 'nshard': nshard, 'variants': variants, 'morph': True}
     for idx, spec in spaces.shard(_nfa_space(space), shard, nshard):
-        for (scheme, eps, enc) in variants:
-            check(acc, spec, scheme, eps, enc, morph=morph)
+        for v in variants:
+            (scheme, eps, enc) = v[:3]
+            check(acc, spec, scheme, eps, enc, morph=morph, letters=(v[3] if len(v) > 3 else 'ab'))
         if upto is not None and spec == upto:
             break
     acc.data.clear()
@@ -107,6 +111,25 @@ def plan(tier, seed):
     nfa(('nfa', 2, 1, None, False), SPARSE, 2, morph=True)
     nfa(('nfa', 2, 2, 3, False), SPARSE, 4, morph=True)
     nfa(('nfa', 3, 1, 3, False), [('t', '', 'sparse')], 4, morph=True)
+    # wave 5: wide alphabets, further name schemes and epsilon spellings, other presentations of the transition dict
+    EXTRA = [('s', 'ba', 'sparse'), ('u', '', 'sparse', 'gr'), ('g', '_', 'sparse'), ('K', 'ε', 'sparse'), ('f', '', 'sparse')]
+    WIDE = [('s', '', 'sparse', 'w'), ('t', '_', 'total', 'w')]
+    nfa(('nfa', 1, 2, None, False), EXTRA, 1)
+    nfa(('nfa', 2, 1, None, False), EXTRA, 4)
+    nfa(('nfa', 2, 2, 3, False), EXTRA[:3], 8)
+    nfa(('nfa', 3, 1, 3, False), EXTRA[1:], 4)
+    for k_ in (5, 6, 7):
+        nfa(('nfa', 1, k_, None if k_ == 5 else 3, False), WIDE, 1)
+    nfa(('nfa', 2, 5, 2, False), WIDE, 4)
+    nfa(('nfa', 2, 6, 2, True), WIDE, 2)
+    nfa(('nfa', 2, 7, 2, True), WIDE[:1], 2)
+    nfa(('nfa', 3, 5, 2, True), WIDE[:1], 4)
+    base = list(tasks)
+    tiny = lambda name, p: not p['morph'] and p['variants'] in (SPELL, SPARSE) and p['space'] in (('nfa', 1, 2, None, False), ('nfa', 2, 1, None, False), ('chain', 4))
+    tasks += common.ordered_copies(base, tiny, orders=('canonical', 'reversed') + common.OBJ_ORDERS)
+    pres = lambda name, p: not p['morph'] and p['space'] in (('nfa', 2, 1, None, False), ('chain', 5), ('rot', 5), ('nfa', 1, 5, None, False), ('nfa', 2, 5, 2, False))
+    for kn in ({'dorder': 'aq'}, {'dorder': 'rev', 'shared': True}):
+        tasks += common.knob_copies(base, pres, kn)
     if tier == 'quick':
         nfa(('nfa', 2, 2, None, False), SPARSE, 16)
         nfa(('nfa', 3, 1, 4, False), SPARSE, 16)
@@ -124,4 +147,5 @@ def plan(tier, seed):
     return {'tasks': tasks, 'bounds': {'spaces': bounds}, 'exhaustive': True,
             'rule': 'every labelled NFA inside the bounds, once per (automaton, epsilon spelling, delta encoding, name scheme); non-trivial = reference subset automaton has >= 3 states',
             'assumptions': ['language equality decided exactly by exploring the reachable pair-state space of reference determinisations', 'NFA delta total (defaultdict or full dict)',
-                            'the initial-state clause is evaluated only when the state name is in the documented {a,b} set notation', 'rotation family (n = 5..7 states on a cycle, many distinct large subsets), names that are substrings of each other (q1, q10, q), small spaces also through one live NFA rewritten in place']}
+                            'the initial-state clause is evaluated only when the state name is in the documented {a,b} set notation', 'rotation family (n = 5..7 states on a cycle, many distinct large subsets), names that are substrings of each other (q1, q10, q), small spaces also through one live NFA rewritten in place',
+                            'wave 5: alphabets of 5-7 letters, names with non-decimal digit characters / outside latin-1 / generated-looking / keyword-like, epsilon named ba, transition dict filled letter-major or reversed with shared target sets, canonical / reversed / per-object set-order policies on the tiny spaces']}
